@@ -63,7 +63,10 @@ PROPS = {
         'exhaustive': {'thorough': False},
     },
     'C07': {
-        'theorems': [],
+        'claimed': True,
+        'level_text': "Proved for every CodeData whose non-constant integers are JSON-safe (C ints in decoded data) - by mutual induction through nested code, with no bound on sizes or nesting: from_json_data(to_json_data(x)) succeeds and returns x with all NaNs identified (C07_roundtrip, C07_constants: every constant kind, every string position incl. lone surrogates, every private field, unambiguous tag dispatch); integers are written as JSON numbers only inside +-(2^53-1) (about the MIN/MAX_INTEGER read from the source on this run), floats only when finite, strings only without lone surrogates (C07_int_strict, C07_float_strict, C07_str_strict); the canonical form differs from x only in NaN payloads (C07_canon_float_key). Not theorems: validity against the published JSON_SCHEMA and the real serialize/parse cycle (json.dumps/loads float printing, repr/literal_eval, base64 are runtime facts built into the abstract JSON strings of the model) - decided by the correspondence (model = implementation on every document, tojson and fromjson) and the direct oracle with an independent schema validator, real json round trips, hash/equality and to_code comparison.",
+        'theorems': ['CDV.Props.C07.C07_roundtrip', 'CDV.Props.C07.C07_constants', 'CDV.Props.C07.C07_int_strict', 'CDV.Props.C07.C07_float_strict', 'CDV.Props.C07.C07_str_strict', 'CDV.Props.C07.C07_canon_float_key', 'CDV.Props.C07.C07_canon_idem_float'],
+        'modules': ['CDVProofs.Json', 'CDVProofs.Props.C07'],
         'eval_keys': ['documents'],
         'rule': PROGRAM_RULE + '; each decoded and normalized CodeData, plus synthetic CodeData with generated constants (nested tuples/frozensets to depth 4, edge floats/ints/strings/bytes/complex, lone surrogates) in every position; distinct = distinct documents',
     },
@@ -81,7 +84,10 @@ PROPS = {
         'rule': 'random interleaved histories of from_code / to_code / normalize / to_json_data / from_json_data on a fixed pool of objects per program (repeated calls included), with deep snapshots (structure + node identities) of the argument before and after every call; distinct = distinct programs',
     },
     'C15': {
-        'theorems': [],
+        'claimed': True,
+        'level_text': "The model of to_json_data / from_json_data / normalize has no interpreter-version parameter (its type is the proof that the model is host-independent); proved on top, for every CodeData with JSON-safe integers: a document written, loaded and written again is the identical document, and normalizing the loaded data gives the producer's normalized document (C15_redump, C15_normalize_commutes, C15_reload_stable). That this one version-free model describes the implementation on every host is exactly the correspondence claim and is checked as such on every run: documents written under each of 3.7-3.10 are loaded, re-dumped and normalized under each of 3.7-3.13 (the last three cannot build code objects), canonical dumps compared byte for byte, and every consumer compared with the model's fromjson / tojson / normalize.",
+        'theorems': ['CDV.Props.C15.C15_redump', 'CDV.Props.C15.C15_normalize_commutes', 'CDV.Props.C15.C15_reload_stable'],
+        'modules': ['CDVProofs.JsonCanon', 'CDVProofs.Props.C15'],
         'interps': ['3.7', '3.8', '3.9', '3.10', '3.11', '3.12', '3.13'],
         'shards': {'quick': 2, 'thorough': 2},
         'eval_keys': ['documents'],
